@@ -1,4 +1,5 @@
 """C06 - type queries match exactly the subclasses, once each (E3)."""
+import abc
 import gc
 import itertools
 
@@ -116,6 +117,14 @@ def run_dag(case):
                     hits['diamond'] = 1
     feats = dict(multiple_inheritance=multi, diamond='diamond' in hits)
     sent = object()
+
+    class Virtual(abc.ABC):
+        """K0 (and so each of its subclasses) is registered, not derived:
+        isinstance says yes, the class tree says no.  Which of the two
+        counts is not stated; that all queries answer alike is."""
+
+    Virtual.register(classes[0])
+    hits['virtual_base_queried'] = 1
     for mask in range(1 << n):
         mine = [classes[i] for i in range(n) if mask >> i & 1]
 
@@ -163,6 +172,30 @@ def run_dag(case):
                                 f'get_component(K{q.idx}) = {one!r}',
                                 exact_present=any(type(o) is q for o in objs),
                                 **feats)
+        listed = [o for e, o in w.get(Virtual) if e == 1]
+        has = w.has_component(1, Virtual)
+        one = w.get_component(1, Virtual, sent)
+        calls += 3
+        if (has != bool(listed) or (one is not sent) != has
+                or (one is not sent and not any(one is o for o in listed))):
+            raise Violation(
+                'queries_agree',
+                f'classes {spec}, K0 registered with an ABC, entity owns '
+                f'{[type(o).__name__ for o in objs]}: get(ABC) lists '
+                f'{listed}, has_component = {has}, get_component = '
+                f'{"<default>" if one is sent else one!r}', virtual=True,
+                **feats)
+        removed = w.remove_component(1, Virtual)
+        calls += 1
+        if (removed is not None) != has or (
+                removed is not None
+                and not any(removed is o for o in listed)):
+            raise Violation(
+                'queries_agree',
+                f'classes {spec}, K0 registered with an ABC, entity owns '
+                f'{[type(o).__name__ for o in objs]}: has_component(ABC) = '
+                f'{has}, get(ABC) lists {listed}, remove_component(ABC) '
+                f'returned {removed!r}', virtual=True, **feats)
         # replace each component of entity 1 by a fresh one of the same
         # type (add_component and create_entity), then ask again
         for how in ('add', 'create'):
@@ -223,11 +256,19 @@ def run_dag(case):
     pclasses = build(spec, PRoot, warm_processors)
     for mask in range(1 << n):
         mine = [pclasses[i] for i in range(n) if mask >> i & 1]
-        for q in pclasses:
+        for q, backwards in itertools.product(pclasses, (False, True)):
             w = desper.World()
             objs = [c() for c in mine]
-            for o in objs:
+            # bases before subclasses, and subclasses before bases
+            for o in (reversed(objs) if backwards else objs):
                 w.add_processor(o)
+            if sorted(map(id, w.processors)) != sorted(map(id, objs)):
+                raise Violation('add_processor_keeps_other_types',
+                                f'classes {spec}: processors of types '
+                                f'{[type(o).__name__ for o in objs]} added '
+                                f'{"subclasses first" if backwards else "bases first"}'
+                                f', registered: {list(w.processors)}',
+                                subclass_first=backwards, **feats)
             got = w.get_processor(q)
             calls += 1
             if not _exact_or_match(got, objs, q, None):
